@@ -8,6 +8,7 @@ or directly follow a successful snapshot install.  The election restriction half
 from .common import *
 
 EXPLANATION = __doc__
+TECHNIQUE = "static analysis of rustc MIR facts: dominance/guard and value-provenance rules plus exact symbolic decision tables of loop-free guard functions (exhaustive over weak orderings)"
 
 PRIMS = r"(RaftLog::(reset|purge_logs_up_to)|BufferedRaftLog::(remove_range|reset|reset_internal|purge_logs_up_to)|LogStore::(truncate|replace_range|purge|reset)|PurgeExecutor::execute_purge)$"
 
